@@ -45,6 +45,15 @@ STRENGTHENED = {
     "C08w4-include-resolved-on-node": "C08: one file compiled by two commands whose `-I` lists resolve the same quoted include to different files",
     "C14w4-parse-under-requested-name": "C14: link whose extension belongs to another language family than its target",
     "C14w4-casefold-sort": "C14: two paths that differ in case only",
+    "C05w5-single-eol-flag": "C05: the product search cut the exploration at the first *timing* difference (a logical line emitted early) and attributed the prefix to a known finding; now a prefix divergence is reported through the simplest closing whose final answer is wrong, and explored further otherwise",
+    "C10w5-angle-outside-root-skipped": "C10: variants that include the macro header in angle form; header outside the root compared with the same header inside and excluded",
+    "C12w5-override-state-per-dest": "C12: a second pass-selecting `extend_match` rule with its own default, used together with the first",
+    "C18w5-parser-cached-per-compiler": "C18: a later database entry repeating the unknown compiler (other path), the unknown flag and the missing file; exact multiplicity for database-level events",
+    "C11w5-command-whitespace-normalised": "C11: values containing two blanks / a tab",
+    "C11w5-shared-default-lists": "C11: call sequences (incl. `-isystem` without `-I` first) through one database and through one `ArgumentParser` object",
+    "C01w5-noexpand-never-popped": "C01: a condition that names the same macro twice (C02 and C03 already reported it)",
+    "C04w5-literal-include-cached-on-node": "C04: companion platform analysing the same TU first with the search list reversed (C08 already reported it)",
+    "C14w5-shared-include-cache-frozenset": "C14: the same header name in two include directories searched in opposite order by two platforms (C04 already reported it)",
     "C11-split-fast-path": "C11: backslash-escaped and double-quoted renderings of the command string",
 }
 
